@@ -53,6 +53,8 @@ type FuncContract struct {
 	Ensures   []*Clause
 	EnsuresA  []*Clause // ensures_always
 	NoPanic   *Clause
+	NoPanicOwn *Clause
+	MergeJoins bool // merge symbolic states at join points instead of enumerating paths
 	Modifies  []string
 	ModSet    bool // a modifies clause was given
 	Ghosts    []*Ghost
@@ -435,6 +437,8 @@ func (cs *Contracts) LoadFile(path, pkgPath string) error {
 			}
 		case "entry":
 			cur.Entry = append(cur.Entry, strings.Fields(rest)...)
+		case "mergejoins":
+			cur.MergeJoins = true
 		case "trusted":
 			cur.Trusted = rest
 		case "returns":
@@ -473,6 +477,13 @@ func (cs *Contracts) LoadFile(path, pkgPath string) error {
 			}
 			cur.PanicsUnl = e
 		case "nopanic":
+			// `nopanic own`: this function's own operations never panic; its callees may (callers must not rely on it)
+			if f := strings.Fields(rest); len(f) > 0 && f[0] == "own" {
+				tags, _ := parseTags(strings.TrimSpace(strings.TrimPrefix(strings.TrimSpace(rest), "own")))
+				cur.NoPanicOwn = &Clause{Kind: "nopanic", Tags: tags, File: path, Line: ln}
+				curOn = nil
+				break
+			}
 			tags, _ := parseTags(rest)
 			cur.NoPanic = &Clause{Kind: "nopanic", Tags: tags, File: path, Line: ln}
 			curOn = nil
